@@ -679,6 +679,26 @@ def check_C18(tier, seed):
         concrete = True
         rep.violation_input("%s (%d failing histories of the global holder; smallest shown)" % (msgs[0][:300], len(gbad)),
                             {"bin": "mac", "case": l, "implementation": o, "clauses": msgs})
+    # ---- the compile-time part of "no data race on the cell": the bounds of the two unsafe impls.  Two programs that
+    # share / move a holder of a !Sync / !Send value must be rejected by the compiler (E0277)
+    wit = {}
+    for name in ("c18_sync_witness", "c18_send_witness"):
+        rc, out = common.build_example(name)
+        if rc == 0:
+            wit[name] = "COMPILES"
+            if not concrete:
+                concrete = True
+                run = common.sh([os.path.join(common.TARGET, "release", "examples", name)], timeout=60)[1][-300:]
+                rep.violation_input(
+                    "harness/examples/%s.rs compiles: SingletonHolder<T> is %s for a T that is not - safe code can race on the "
+                    "value behind the cell" % (name, "Sync" if "sync" in name else "Send"),
+                    {"bin": "example", "case": "harness/examples/%s.rs" % name, "program_output": run,
+                     "how": "cargo build --release --example %s in /verif/harness (RUSTFLAGS=--cfg cadence_verif)" % name})
+        elif "E0277" in out:
+            wit[name] = "rejected (E0277)"
+        else:
+            wit[name] = "did not build for another reason: " + out[-300:]
+    rep.cov["compile_fail_witnesses"] = wit
     # ---- evidence
     stats = {"ops": {}, "racing_setters": 0, "in_window": 0, "nontrivial": 0, "value_returned": 0}
     for s in summ:
